@@ -31,6 +31,8 @@ Templates == { [kind |-> "file", dirs |-> d, declared |-> s, actual |-> s, inner
        \cup  { [kind |-> "file", dirs |-> 0, declared |-> 2, actual |-> 1, inner |-> "none", again |-> FALSE],      \* header declares more than there is
                [kind |-> "file", dirs |-> 1, declared |-> 1, actual |-> 3, inner |-> "none", again |-> FALSE],      \* header declares less than there is
                [kind |-> "fakezip", dirs |-> 0, declared |-> 1, actual |-> 1, inner |-> "none", again |-> FALSE],
+               \* ... and a bigger one (compressible: the archive that carries it stays below one unit): a file like any other, whatever its name
+               [kind |-> "fakezip", dirs |-> 0, declared |-> 3, actual |-> 3, inner |-> "none", again |-> FALSE],
                \* a zip64 header declaring 2^63 bytes or more (beyond every limit, negative once read as a signed size) over a small stream
                [kind |-> "file", dirs |-> 0, declared |-> Overflow, actual |-> 3, inner |-> "none", again |-> FALSE] }
        \cup  { [kind |-> "nested", dirs |-> d, declared |-> 0, actual |-> 0, inner |-> i, again |-> a] : d \in 0..1, i \in DOMAIN Inner, a \in BOOLEAN }
